@@ -58,6 +58,14 @@ def _no_rewrite(evs):
 
 def check(run):
     run.build()
+    from vlib import Inconclusive
+    for cfg, lab in (("FilterWalkMC.cfg", "single patterns <= 3 segments, include list"), ("FilterWalkMC_exc.cfg", "single patterns <= 3 segments, exclude list"),
+                     ("FilterWalkMC_pairs.cfg", "all 3422 lists of <= 2 patterns of <= 2 segments, include list"),
+                     ("FilterWalkMC_pairs_exc.cfg", "all 3422 lists of <= 2 patterns of <= 2 segments, exclude list")):
+        run.tlc_mc("FilterWalkMC", cfg, label="alg/filterFS.Walk vs reference: pruning unobservable, only the matcher diverges; " + lab)
+    r = run.tlc_mc("FilterWalkMC", "FilterWalkMC_pinned.cfg", label="sanity: pinned patternWithoutTrailingGlob (strips /** and /*) must be rejected", expect_error=True)
+    if "PruningUnobservable is violated" not in r["out"]:
+        raise Inconclusive("FilterWalkMC sanity configuration was not rejected: the model is vacuous")
     trace, st = run.drive("filter")
     tr = run.tlc_trace("WalkTrace", trace)
     tr["failed"] = [f for f in tr["failed"] if any(c.startswith("C10.") for c in f["clauses"])]
